@@ -315,42 +315,63 @@ def selectPivot (e : EOps α) (T : Mat α m n) (below : Nat) (j : Fin n) : Optio
       | some (_, k0) => if k < k0 then some (i, k) else acc
     else acc) none).map (·.1)
 
+/-- one iteration `i1` of the loop in `eliminate_col` -/
+def eliminateColStep (e : EOps α) (dbg : Bool) (i : Fin m) (j : Fin n) (sm : St α m n × Bool) (i1 : Fin m) :
+    Res (St α m n × Bool) :=
+  let s := sm.1
+  if i = i1 || e.isZero (s.t.get i1 j) then .ok sm
+  else
+    let x := s.t.get i j
+    let y := s.t.get i1 j
+    let g := gcdxW e x y
+    let a := e.quo x g.1
+    let b := e.quo y g.1
+    match sLeft e.toROps dbg s g.2.1 g.2.2 (e.neg b) a i i1 with
+    | .ok s' => .ok (s', true)
+    | .panic => .panic
+    | .err => .err
+
 /-- `eliminate_col`: returns the new state and `modified` -/
 def eliminateCol (e : EOps α) (dbg : Bool) (s : St α m n) (i : Fin m) (j : Fin n) : Res (St α m n × Bool) :=
-  (List.finRange m).foldlM (fun (sm : St α m n × Bool) i1 =>
-    let s := sm.1
-    if i = i1 || e.isZero (s.t.get i1 j) then pure sm
-    else
-      let x := s.t.get i j
-      let y := s.t.get i1 j
-      let (d, sc, tc) := gcdxW e x y
-      let a := e.quo x d
-      let b := e.quo y d
-      do let s' ← sLeft e.toROps dbg s sc tc (e.neg b) a i i1
-         pure (s', true)) (s, false)
+  (List.finRange m).foldlM (eliminateColStep e dbg i j) (s, false)
+
+def eliminateRowStep (e : EOps α) (dbg : Bool) (i : Fin m) (j : Fin n) (sm : St α m n × Bool) (j1 : Fin n) :
+    Res (St α m n × Bool) :=
+  let s := sm.1
+  if j = j1 || e.isZero (s.t.get i j1) then .ok sm
+  else
+    let x := s.t.get i j
+    let y := s.t.get i j1
+    let g := gcdxW e x y
+    let a := e.quo x g.1
+    let b := e.quo y g.1
+    match sRight e.toROps dbg s g.2.1 g.2.2 (e.neg b) a j j1 with
+    | .ok s' => .ok (s', true)
+    | .panic => .panic
+    | .err => .err
 
 def eliminateRow (e : EOps α) (dbg : Bool) (s : St α m n) (i : Fin m) (j : Fin n) : Res (St α m n × Bool) :=
-  (List.finRange n).foldlM (fun (sm : St α m n × Bool) j1 =>
-    let s := sm.1
-    if j = j1 || e.isZero (s.t.get i j1) then pure sm
-    else
-      let x := s.t.get i j
-      let y := s.t.get i j1
-      let (d, sc, tc) := gcdxW e x y
-      let a := e.quo x d
-      let b := e.quo y d
-      do let s' ← sRight e.toROps dbg s sc tc (e.neg b) a j j1
-         pure (s', true)) (s, false)
+  (List.finRange n).foldlM (eliminateRowStep e dbg i j) (s, false)
 
 /-- `eliminate_at`; the `while` takes fuel (`Res.err` on exhaustion) -/
 def eliminateAt (e : EOps α) (dbg : Bool) (i : Fin m) (j : Fin n) : (fuel : Nat) → St α m n → Res (St α m n)
   | 0, _ => .err
   | fuel + 1, s =>
-    if rowNz e s.t i > 1 || colNz e s.t j > 1 then do
-      let (s1, m1) ← eliminateCol e dbg s i j
-      let (s2, m2) ← eliminateRow e dbg s1 i j
-      if !(m1 || m2) then .panic else eliminateAt e dbg i j fuel s2
+    if rowNz e s.t i > 1 || colNz e s.t j > 1 then
+      match eliminateCol e dbg s i j with
+      | .ok r1 =>
+        match eliminateRow e dbg r1.1 i j with
+        | .ok r2 => if !(r1.2 || r2.2) then .panic else eliminateAt e dbg i j fuel r2.1
+        | .panic => .panic
+        | .err => .err
+      | .panic => .panic
+      | .err => .err
     else .ok s
+
+/-- the two swaps of `eliminate_step` -/
+def stepPrep (s : St α m n) (i ip : Fin m) (ic j : Fin n) : St α m n :=
+  let s := if ip.1 > i.1 then sSwapRows s i ip else s
+  if j.1 > ic.1 then sSwapCols s ic j else s
 
 /-- `eliminate_step(i, j)`; `none` = no pivot (`false`) -/
 def eliminateStep (e : EOps α) (dbg : Bool) (fuel : Nat) (s : St α m n) (i : Fin m) (j : Fin n) (hi : i.1 < n) :
@@ -358,28 +379,36 @@ def eliminateStep (e : EOps α) (dbg : Bool) (fuel : Nat) (s : St α m n) (i : F
   match selectPivot e s.t i.1 j with
   | none => .ok none
   | some ip =>
-    let s := if ip.1 > i.1 then sSwapRows s i ip else s
-    let ic : Fin n := ⟨i.1, hi⟩
-    let s := if j.1 > i.1 then sSwapCols s ic j else s
-    let u := e.normUnit (s.t.get i ic)
-    do
-      let s ← if !e.isOne u then sMulCol e s ic u else pure s
+    let s1 := stepPrep s i ip ⟨i.1, hi⟩ j
+    let u := e.normUnit (s1.t.get i ⟨i.1, hi⟩)
+    match (if !e.isOne u then sMulCol e s1 ⟨i.1, hi⟩ u else .ok s1) with
+    | .ok s2 =>
       -- `eliminate_at`: `assert!(!self.target[(i, j)].is_zero())`
-      if e.isZero (s.t.get i ic) then .panic
-      else do
-        let s ← eliminateAt e dbg i ic fuel s
-        pure (some s)
+      if e.isZero (s2.t.get i ⟨i.1, hi⟩) then .panic
+      else
+        match eliminateAt e dbg i ⟨i.1, hi⟩ fuel s2 with
+        | .ok s3 => .ok (some s3)
+        | .panic => .panic
+        | .err => .err
+    | .panic => .panic
+    | .err => .err
+
+/-- one iteration `j` of `eliminate_all` (state: calc, row counter `i`) -/
+def eliminateAllStep (e : EOps α) (dbg : Bool) (fuel : Nat) (si : St α m n × Nat) (j : Fin n) : Res (St α m n × Nat) :=
+  if h : si.2 < m ∧ si.2 ≤ j.1 then
+    match eliminateStep e dbg fuel si.1 ⟨si.2, h.1⟩ j (Nat.lt_of_le_of_lt h.2 j.2) with
+    | .ok none => .ok si
+    | .ok (some s') => .ok (s', si.2 + 1)
+    | .panic => .panic
+    | .err => .err
+  else .ok si
 
 /-- `eliminate_all`: `for j in 0..n { if i >= m { break }; if step(i, j) { i += 1 } }` -/
-def eliminateAll (e : EOps α) (dbg : Bool) (fuel : Nat) (s : St α m n) : Res (St α m n) := do
-  let (s, _) ← (List.finRange n).foldlM (fun (si : St α m n × Nat) j =>
-    let (s, i) := si
-    if h : i < m ∧ i ≤ j.1 then
-      do match ← eliminateStep e dbg fuel s ⟨i, h.1⟩ j (Nat.lt_of_le_of_lt h.2 j.2) with
-         | none => pure (s, i)
-         | some s' => pure (s', i + 1)
-    else pure (s, i)) (s, 0)
-  pure s
+def eliminateAll (e : EOps α) (dbg : Bool) (fuel : Nat) (s : St α m n) : Res (St α m n) :=
+  match (List.finRange n).foldlM (eliminateAllStep e dbg fuel) (s, 0) with
+  | .ok si => .ok si.1
+  | .panic => .panic
+  | .err => .err
 
 /-- the diagonal entry `(i, i)` for `i < min m n` (zero outside, never used there) -/
 def dg (o : ROps α) (T : Mat α m n) (i : Nat) : α :=
@@ -388,67 +417,79 @@ def dg (o : ROps α) (T : Mat α m n) (i : Nat) : α :=
 /-- `diag_normalize_step(i)` with `i + 1 < min m n`; returns the state and the `bool` -/
 def diagNormalizeStep (e : EOps α) (dbg : Bool) (s : St α m n) (i : Nat) (hm : i + 1 < m) (hn : i + 1 < n) :
     Res (St α m n × Bool) :=
-  let i0 : Fin m := ⟨i, Nat.lt_of_succ_lt hm⟩
-  let i1 : Fin m := ⟨i + 1, hm⟩
-  let j0 : Fin n := ⟨i, Nat.lt_of_succ_lt hn⟩
-  let j1 : Fin n := ⟨i + 1, hn⟩
-  let x := s.t.get i0 j0
-  let y := s.t.get i1 j1
+  let x := s.t.get ⟨i, Nat.lt_of_succ_lt hm⟩ ⟨i, Nat.lt_of_succ_lt hn⟩
+  let y := s.t.get ⟨i + 1, hm⟩ ⟨i + 1, hn⟩
   if e.isZero x || e.isZero y then .panic
   else if e.dvd x y then .ok (s, true)
-  else if e.dvd y x then .ok (sSwapCols (sSwapRows s i0 i1) j0 j1, false)
+  else if e.dvd y x then
+    .ok (sSwapCols (sSwapRows s ⟨i, Nat.lt_of_succ_lt hm⟩ ⟨i + 1, hm⟩) ⟨i, Nat.lt_of_succ_lt hn⟩ ⟨i + 1, hn⟩, false)
   else
-    let (d, sc, tc) := gcdxW e x y
-    let a := e.quo x d
-    let b := e.quo y d
-    let tb := e.mul tc b
-    let sa := e.mul sc a
-    do
-      let s ← sLeft e.toROps dbg s e.one e.one (e.neg tb) sa i0 i1
-      let s ← sRight e.toROps dbg s sc tc (e.neg b) a j0 j1
-      pure (s, false)
+    let g := gcdxW e x y
+    let a := e.quo x g.1
+    let b := e.quo y g.1
+    let tb := e.mul g.2.2 b
+    let sa := e.mul g.2.1 a
+    match sLeft e.toROps dbg s e.one e.one (e.neg tb) sa ⟨i, Nat.lt_of_succ_lt hm⟩ ⟨i + 1, hm⟩ with
+    | .ok s1 =>
+      match sRight e.toROps dbg s1 g.2.1 g.2.2 (e.neg b) a ⟨i, Nat.lt_of_succ_lt hn⟩ ⟨i + 1, hn⟩ with
+      | .ok s2 => .ok (s2, false)
+      | .panic => .panic
+      | .err => .err
+    | .panic => .panic
+    | .err => .err
 
 /-- one pass `for i in 0..r-1` of the `'outer` loop; `true` = the pass went through (`break`) -/
 def diagPass (e : EOps α) (dbg : Bool) (r : Nat) : (cnt : Nat) → (i : Nat) → St α m n → Res (St α m n × Bool)
   | 0, _, s => .ok (s, true)
   | cnt + 1, i, s =>
-    if h : i + 1 < r ∧ i + 1 < m ∧ i + 1 < n then do
-      let (s, ok) ← diagNormalizeStep e dbg s i h.2.1 h.2.2
-      if ok then diagPass e dbg r cnt (i + 1) s else pure (s, false)
+    if h : i + 1 < r ∧ i + 1 < m ∧ i + 1 < n then
+      match diagNormalizeStep e dbg s i h.2.1 h.2.2 with
+      | .ok r1 => if r1.2 then diagPass e dbg r cnt (i + 1) r1.1 else .ok (r1.1, false)
+      | .panic => .panic
+      | .err => .err
     else .ok (s, true)
 
 def diagOuter (e : EOps α) (dbg : Bool) (r : Nat) : (fuel : Nat) → St α m n → Res (St α m n)
   | 0, _ => .err
-  | fuel + 1, s => do
-    let (s, done) ← diagPass e dbg r r 0 s
-    if done then pure s else diagOuter e dbg r fuel s
+  | fuel + 1, s =>
+    match diagPass e dbg r r 0 s with
+    | .ok r1 => if r1.2 then .ok r1.1 else diagOuter e dbg r fuel r1.1
+    | .panic => .panic
+    | .err => .err
 
 def firstZeroDiag (e : EOps α) (T : Mat α m n) : Nat :=
   let k := min m n
   ((List.range k).find? (fun i => e.isZero (dg e.toROps T i))).getD k
 
+/-- `if !u.is_one() { mul_row(i, u) }` for the diagonal entry `i` -/
+def normalizeStep (e : EOps α) (s : St α m n) (i : Nat) : Res (St α m n) :=
+  if h : i < m ∧ i < n then
+    let u := e.normUnit (s.t.get ⟨i, h.1⟩ ⟨i, h.2⟩)
+    if !e.isOne u then sMulRow e s ⟨i, h.1⟩ u else .ok s
+  else .ok s
+
 /-- `diag_normalize` -/
 def diagNormalize (e : EOps α) (dbg : Bool) (fuel : Nat) (s : St α m n) : Res (St α m n) :=
   if dbg && !isDiag e.toROps s.t then .panic
+  else if firstZeroDiag e s.t = 0 then .ok s
   else
-    let r := firstZeroDiag e s.t
-    if r = 0 then .ok s
-    else do
-      let s ← diagOuter e dbg r fuel s
-      (List.range r).foldlM (fun (s : St α m n) i =>
-        if h : i < m ∧ i < n then
-          let u := e.normUnit (s.t.get ⟨i, h.1⟩ ⟨i, h.2⟩)
-          if !e.isOne u then sMulRow e s ⟨i, h.1⟩ u else pure s
-        else pure s) s
+    match diagOuter e dbg (firstZeroDiag e s.t) fuel s with
+    | .ok s1 => (List.range (firstZeroDiag e s.t)).foldlM (normalizeStep e) s1
+    | .panic => .panic
+    | .err => .err
 
 /-- `SnfCalc::process`; `pre` = the (type-dispatched) LLL–HNF preprocessing -/
 def snfCalc (e : EOps α) (dbg : Bool) (pre : St α m n → Res (St α m n)) (fuel : Nat) (A : Mat α m n) : Res (St α m n) :=
-  let s := St.init e.toROps A
-  if isZeroMat e.toROps A then .ok s
-  else do
-    let s ← pre s
-    let s ← eliminateAll e dbg fuel s
-    diagNormalize e dbg fuel s
+  if isZeroMat e.toROps A then .ok (St.init e.toROps A)
+  else
+    match pre (St.init e.toROps A) with
+    | .ok s1 =>
+      match eliminateAll e dbg fuel s1 with
+      | .ok s2 => diagNormalize e dbg fuel s2
+      | .panic => .panic
+      | .err => .err
+    | .panic => .panic
+    | .err => .err
 
 end calcm
 
